@@ -64,11 +64,28 @@ class Session:
         self.records.append(kw)
         return kw
 
-    def prove(self, name, assumptions, neg_goal, timeout=30.0, key=None, payload=None, describe=None, want_smt2=False, split=True, ackermann=True):
+    def prove(self, name, assumptions, neg_goal, timeout=30.0, key=None, payload=None, describe=None, want_smt2=False, split=True, ackermann=True, presample=0):
         """Obligation: assumptions /\\ neg_goal must be unsat.
-        payload(model) -> jsonable dict handed to the property's replay() when sat."""
+        payload(model) -> jsonable dict handed to the property's replay() when sat.
+        presample: number of random assignments tried first; a counterexample found by evaluation is a
+        model like any other (it is replayed on the real code); unsat answers always come from the solver."""
         from . import lower
 
+        if presample:
+            m = None
+            try:
+                m = _random_witness(list(assumptions) + [neg_goal], tries=presample, want_model=True, robust_ne=True)
+            except Exception:
+                m = None
+            if m:
+                rec = self._rec(kind="obligation", name=name, key=key or name, status="sat", seconds=0.0, describe=describe, how="counterexample found by evaluation")
+                rec["model"] = _jsonable(m)
+                if payload is not None:
+                    try:
+                        rec["payload"] = _jsonable(payload(m))
+                    except Exception as e:
+                        rec["payload_error"] = "%s: %s" % (type(e).__name__, e)
+                return rec
         try:
             if not ackermann:
                 # first without congruence constraints for uninterpreted applications
@@ -174,9 +191,26 @@ class Session:
         return self._rec(kind="outside", name=name, reason=reason)
 
 
-def _random_witness(assertions, tries=200, seed=1):
+def _robust_truth(t, env, fns):
+    """truth of a boolean term under float evaluation where a disequality counts only when the two sides
+    differ by more than rounding (relative 1e-6): used when looking for counterexamples by evaluation"""
+    from . import term as T
+
+    if t.op == "not" and t.args[0].op == "cmp" and t.args[0].args[0] == "==" and t.args[0].args[1].sort != "B":
+        l, r = T.evaluate([t.args[0].args[1], t.args[0].args[2]], env, ufs=fns)
+        l, r = float(l), float(r)
+        return abs(l - r) > 1e-6 * (abs(l) + abs(r)) + 1e-12
+    if t.op == "or":
+        return any(_robust_truth(a, env, fns) for a in t.args)
+    if t.op == "and":
+        return all(_robust_truth(a, env, fns) for a in t.args)
+    return bool(T.evaluate(t, env, ufs=fns))
+
+
+def _random_witness(assertions, tries=200, seed=1, want_model=False, robust_ne=False):
     """try to satisfy the conjunction by random rational assignments
-    (uninterpreted applications get independent random values)"""
+    (uninterpreted applications get independent random values);
+    want_model: return {variable name: value} (None when nothing was found)"""
     import random
 
     from . import term as T
@@ -225,6 +259,11 @@ def _random_witness(assertions, tries=200, seed=1):
                             elif r.op == "var" and r.sort != "B":
                                 env[r] = T.evaluate(l, env, ufs=fns)
             vals = T.evaluate(list(assertions), env, ufs=fns)
+            if robust_ne:
+                vals = list(vals)
+                for k, a in enumerate(assertions):
+                    if vals[k] and a.op in ("not", "or", "and"):
+                        vals[k] = _robust_truth(a, env, fns)
             # equalities between float-evaluated sides: up to rounding
             for k, a in enumerate(assertions):
                 if not vals[k] and a.op == "cmp" and a.args[0] == "==" and a.args[1].sort != "B":
@@ -233,8 +272,10 @@ def _random_witness(assertions, tries=200, seed=1):
         except Exception:
             continue
         if all(bool(x) for x in vals):
+            if want_model:
+                return {v.args[0]: (bool(x) if v.sort == "B" else float(x)) for v, x in env.items() if hasattr(v, "args")}
             return True
-    return False
+    return None if want_model else False
 
 
 # ------------------------------------------------------------------ worker side
